@@ -257,6 +257,33 @@ ssize_t vs_write(int fd, const void *buf, size_t n) {
 	return ret;
 }
 
+/* writev / pwrite seams (writer.c: -Dwritev=vs_writev -Dpwrite=vs_pwrite): a writer that gathers its output differently still goes
+ * through the same fault script - one call of the script per system call, whatever its form */
+#include <sys/uio.h>
+ssize_t vs_writev(int fd, const struct iovec *iov, int iovcnt);
+ssize_t vs_writev(int fd, const struct iovec *iov, int iovcnt) {
+	size_t total = 0;
+	for (int i = 0; i < iovcnt; i++) total += iov[i].iov_len;
+	uint8_t *tmp = malloc(total + 1);
+	size_t off = 0;
+	for (int i = 0; i < iovcnt; i++) { memcpy(tmp + off, iov[i].iov_base, iov[i].iov_len); off += iov[i].iov_len; }
+	ssize_t r = vs_write(fd, tmp, total);
+	int e = errno;
+	free(tmp);
+	errno = e;
+	return r;
+}
+ssize_t vs_pwrite(int fd, const void *buf, size_t n, off_t offset);
+ssize_t vs_pwrite(int fd, const void *buf, size_t n, off_t offset) {
+	off_t cur = lseek(fd, 0, SEEK_CUR);
+	if (lseek(fd, offset, SEEK_SET) < 0) return -1;
+	ssize_t r = vs_write(fd, buf, n);
+	int e = errno;
+	lseek(fd, cur, SEEK_SET);
+	errno = e;
+	return r;
+}
+
 /* mmap seam: reader.c is compiled with -Dmmap=vs_mmap -Dmunmap=vs_munmap */
 static int guard_mode = 0;	/* 0 off, 1 image flush against the right guard, 2 against the left guard */
 struct gmap { void *base; size_t total; void *img; size_t len; };
